@@ -518,7 +518,7 @@ func ZZVerifC09() {
 	if thorough {
 		totalCap = 3
 	}
-	budget := 100 * gotime.Second
+	budget := 200 * gotime.Second
 	if thorough {
 		budget = 18 * gotime.Minute
 	}
